@@ -100,7 +100,11 @@ func TestCheck(t *testing.T) {
 		}
 		edits := enumEdits(maxGroups)
 		var mu sync.Mutex
-		encs := map[string]string{} // encoding -> first edit that produced it
+		type seed struct {
+			name    string
+			ngroups int
+		}
+		encs := map[string]seed{} // encoding -> simplest edit that produced it
 		doneA, completeA := c.Each(len(edits), func(i int) {
 			ps := edits[i]
 			ve, prior := buildEdit(ps)
@@ -117,9 +121,13 @@ func TestCheck(t *testing.T) {
 			}
 			if enc != nil {
 				c.State(vlib.Hash("a", enc))
+			}
+			// Seeds of part (c). Edits with two or more DeletedTables / DeletedBlobFiles entries are left
+			// out: Encode walks those maps, so their record order differs from run to run.
+			if enc != nil && len(ve.DeletedTables) <= 1 && len(ve.DeletedBlobFiles) <= 1 {
 				mu.Lock()
-				if _, ok := encs[string(enc)]; !ok {
-					encs[string(enc)] = pickNames(ps)
+				if old, ok := encs[string(enc)]; !ok || len(ps) < old.ngroups {
+					encs[string(enc)] = seed{pickNames(ps), len(ps)}
 				}
 				mu.Unlock()
 			}
@@ -270,36 +278,59 @@ func TestCheck(t *testing.T) {
 				}
 				return list[i] < list[j]
 			})
-			var total int64
+			// Substitution values: all 255 other values for encodings of edits with fewer than maxGroups
+			// groups; for edits with exactly maxGroups groups the stated subset
+			// {b^01, b^80, b+1, b-1, 00, 01, 7f, ff} of the original byte b.
+			var total, full int64
 			for _, e := range list {
-				total += int64(len(e)) * 256
+				total += int64(len(e))
+				if encs[e].ngroups < maxGroups {
+					full++
+				}
 			}
 			done, complete := c.Each(len(list), func(i int) {
 				l := &local{out: map[string]int64{}, states: map[uint64]struct{}{}}
 				defer flush(l)
 				enc := []byte(list[i])
-				name := encs[list[i]]
+				sd := encs[list[i]]
+				name := sd.name
 				for k := 0; k < len(enc); k++ {
-					one(l, enc[:k], true, func() string { return fmt.Sprintf("encoding of edit %q truncated to %d of %d bytes", name, k, len(enc)) })
+					one(l, enc[:k], true, func() string {
+						return fmt.Sprintf("encoding of edit %q truncated to %d of %d bytes", name, k, len(enc))
+					})
 				}
 				buf := make([]byte, len(enc))
 				for k := 0; k < len(enc); k++ {
 					copy(buf, enc)
-					for b := 0; b < 256; b++ {
-						if byte(b) == enc[k] {
-							continue
+					try := func(b byte) {
+						if b == enc[k] {
+							return
 						}
-						buf[k] = byte(b)
+						buf[k] = b
 						one(l, buf, false, func() string {
 							return fmt.Sprintf("encoding %x of edit %q with byte %d changed from %02x to %02x", enc, name, k, enc[k], b)
 						})
+					}
+					if sd.ngroups < maxGroups {
+						for b := 0; b < 256; b++ {
+							try(byte(b))
+						}
+					} else {
+						o := enc[k]
+						var seen [256]bool
+						for _, b := range []byte{o ^ 0x01, o ^ 0x80, o + 1, o - 1, 0x00, 0x01, 0x7f, 0xff} {
+							if !seen[b] {
+								seen[b] = true
+								try(b)
+							}
+						}
 					}
 				}
 				if i%499 == 11 {
 					c.Sample(map[string]any{"part": "arbitrary", "mutated_encoding_of": name, "encoding": hex.EncodeToString(enc)})
 				}
 			})
-			scope["c_mutations"] = fmt.Sprintf("%d of %d distinct valid encodings (total %d bytes): every truncation and every single-byte substitution with all 255 other values", done, len(list), total/256)
+			scope["c_mutations"] = fmt.Sprintf("%d of %d distinct valid encodings (total %d bytes): every truncation; every single-byte substitution with all 255 other values for the %d encodings of edits with < %d groups, with {b^01,b^80,b+1,b-1,00,01,7f,ff} for the rest", done, len(list), total, full, maxGroups)
 			if !complete {
 				c.Incomplete(fmt.Sprintf("budget expired in part (c) mutations after %d of %d encodings; parts (a), (b) and short strings complete", done, len(list)))
 			}
